@@ -154,6 +154,54 @@ theorem C19_codec_json_columns_partial (t : Table) (hwf : t.wf = true) (hv : t.j
 theorem C19_codec_json_cell (asFloat : Bool) (v : Val) : (jsonCell asFloat v).cell = some (jsonBack asFloat v) :=
   jsonCell_cell asFloat v
 
+/-! ### row order and row labels of the columns layout (table sizes) -/
+
+/-- the labels written for the rows are pairwise distinct for every number of rows (`"0"` … `"9"`, `"10"`, … never collide as
+keys of the JSON object) -/
+theorem C19_codec_json_row_labels_distinct (n : Nat) : (rowLabels n).Nodup := by
+  unfold rowLabels List.Nodup
+  rw [List.pairwise_map]
+  refine List.Pairwise.imp ?_ (List.pairwise_lt_range (n := n))
+  intro a b hlt h
+  have ha := (natText_spec a).1
+  rw [h, (natText_spec b).1] at ha
+  omega
+
+/-- `from_dict(orient='columns')` takes the rows in **document order**, whatever their labels are (default, strings, unsorted):
+every column comes back as its cells in the order written -/
+theorem C19_codec_json_columns_document_order (members : List (Str × List (Str × Val))) :
+    fromColumns (members.map fun m => (m.1, JVal.obj (m.2.map fun lc => (lc.1, jsonCell false lc.2))))
+      = some (members.map fun m => (m.1, m.2.map fun lc => jsonBack false lc.2)) := by
+  unfold fromColumns
+  rw [List.mapM_map]
+  have h := mapM_some members
+    (fun m => ((m.2.map fun lc => (lc.1, jsonCell false lc.2)).mapM fun (kc : Str × JVal) => JVal.cell kc.2).map fun cs => (m.1, cs))
+    (fun m => (m.1, m.2.map fun lc => jsonBack false lc.2)) ?_
+  · exact h
+  · intro m _
+    rw [List.mapM_map, mapM_some m.2 _ (fun lc => jsonBack false lc.2)]
+    · rfl
+    · intro lc _; exact jsonCell_cell false lc.2
+
+/-- for every number of rows the decoded columns layout has the rows in the order of the table (a corollary of
+`C19_codec_json_columns_partial`, stated on the frame: ten rows or ten thousand) -/
+theorem C19_codec_json_columns_row_order (t : Table) (hwf : t.wf = true) (hv : t.jsonVerdict true = .same) :
+    jsonToPandas t.jsonColumns = some (t.cols.map fun c => (c.name, c.cells.map (jsonBack (c.kind == .int && c.hasNull)))) :=
+  table_json_columns_frame t hwf hv
+
+private def elevenRows : Table := ⟨[⟨['A'], .int, (List.range 11).map fun i => .int (Int.ofNat i)⟩]⟩
+
+/-- a decoder that sorted the rows by their labels would break the round trip from eleven rows on: the labels are strings and
+`"10"` sorts between `"1"` and `"2"` (up to ten rows nothing shows) -/
+theorem C19_codec_json_label_sorting_counterexample :
+    (∃ f, (match elevenRows.jsonColumns with | .obj ms => fromColumnsSorted ms | _ => none) = some f ∧
+      (Frame.table f (elevenRows.cols.map (·.kind))).same elevenRows = false) ∧
+    (∃ f, (match (Table.mk [⟨['A'], .int, (List.range 10).map fun i => .int (Int.ofNat i)⟩]).jsonColumns with | .obj ms => fromColumnsSorted ms | _ => none) = some f ∧
+      (Frame.table f [.int]).same (Table.mk [⟨['A'], .int, (List.range 10).map fun i => .int (Int.ofNat i)⟩]) = true) := by
+  constructor
+  · refine ⟨[(['A'], [.int 0, .int 1, .int 10, .int 2, .int 3, .int 4, .int 5, .int 6, .int 7, .int 8, .int 9])], by decide +kernel, by decide +kernel⟩
+  · refine ⟨[(['A'], (List.range 10).map fun i => .int (Int.ofNat i))], by decide +kernel, by decide +kernel⟩
+
 /-! ### the schema cache of `Pandas.Schema.from_frame` -/
 
 /-- for every sequence of frames decoded by one process, with any key function that determines the column names: every schema
@@ -220,6 +268,8 @@ example : (Table.mk [⟨['B'], .str, [.text ['a'], .text [' '], .text ['b']]⟩]
 example : (Table.mk [⟨['A'], .str, [.text "x\ry".toList]⟩, ⟨['B'], .int, [.int 1]⟩]).csvVerdict = .csvCR := by decide +kernel
 example : inferKind ["007".toList, " 12".toList, "1e3".toList, "".toList] = .numbers := by decide +kernel
 example : inferKind ["007".toList, "x".toList] = .texts ∧ inferKind ["TRUE".toList, "false".toList] = .bools := by decide +kernel
+example : elevenRows.jsonVerdict true = .same ∧ elevenRows.csvVerdict = .same ∧ rowLabels 11 = ((List.range 11).map fun i => (toString i).toList) := by
+  decide +kernel
 example : recordOK ["a\r,b".toList, []] = true ∧ recordOK [[' ']] = false ∧ recordOK [[]] = true := by decide +kernel
 
 end ForML.Codec
